@@ -103,3 +103,17 @@ def _d4(f):
         return Decimal(0) < Decimal(m.group(1)) - Decimal(m.group(2)) < Decimal('1e-15')
     m = re.search(r'unmatched ([0-9.]+)', msg)
     return bool(m) and Decimal(0) < Decimal(m.group(1)) < Decimal('1e-15')
+
+
+@predicate('D19')
+def _d19(f):
+    """Cost event added to the whole-lot cost of a part-sold acquisition: leaks onto shares sold before the event."""
+    if f.get('kind') == 'event_changes_earlier_disposal':
+        return True
+    if f.get('kind') == 'variant_status' and 'EventsSplit' in f.get('data', {}).get('variant', ''):
+        if 'canonical rendering gives err' not in f.get('detail', '') or not f.get('detail', '').endswith('gives ok'):
+            return False
+        lines = _dsl_lines(f.get('input', ''))
+        ev = [d for d, op, t in lines if op == 'CAPRETURN']
+        return bool(ev) and any(op == 'SELL' and d < min(ev) for d, op, t in lines)
+    return False
